@@ -270,62 +270,82 @@ def stress(res, wd, drv, njobs, ops, histories, rounds=1, timeout=600):
 def rebase(events, base):
     return [dict(e, r=e["r"] + base) if e["e"] == "call" else e for e in events]
 
-def validate(res, wd, histories):
+def validate(res, wd, histories, chunk_events=60000, parallel=4):
     """histories: (description, events starting with reset, replay job or None).  Histories of tables with and without a
-    reserved first slot are validated separately (NilIndices is a constant of InternAbs)."""
-    ths = [threading.Thread(target=validate_group, args=(res, wd, histories, reserved)) for reserved in (False, True)]
+    reserved first slot are validated separately (NilIndices is a constant of InternAbs), in chunks of about chunk_events
+    events (one TLC run each, `parallel` runs at a time)."""
+    chunks = []
+    for reserved in (False, True):
+        hs = [h for h in histories if h[1] and h[1][0]["e"] == "reset" and h[1][0]["b"] == reserved]
+        cur = []; n = 0
+        for h in hs:
+            cur.append(h); n += len(h[1])
+            if n >= chunk_events:
+                chunks.append((reserved, cur)); cur = []; n = 0
+        if cur:
+            chunks.append((reserved, cur))
+    sem = threading.Semaphore(parallel)
+    def work(ci, reserved, hs):
+        with sem:
+            validate_chunk(res, wd, hs, reserved, "MCT_Intern_%d_c%d" % (int(reserved), ci))
+    ths = [threading.Thread(target=work, args=(ci, reserved, hs)) for ci, (reserved, hs) in enumerate(chunks)]
     for t in ths:
         t.start()
     for t in ths:
         t.join()
+    res.cov["trace_chunks"] = len(chunks)
 
-def validate_group(res, wd, histories, reserved):
-    if True:
-        hs = [h for h in histories if h[1] and h[1][0]["e"] == "reset" and h[1][0]["b"] == reserved]
-        consts = ("CONSTANT Threads = {0, 1, 2, 3, 4, 5, 6, 7, 8}\nCONSTANT Values = {}\nCONSTANT Indices = {}\n"
-                  "CONSTANT NilIndices <- %s\nCONSTANT Mode = \"%%s\"" % ("NilRefs" if reserved else "NoRefs"))
-        start = 0; rnd = 0; rejected = 0
-        while start < len(hs):
-            if rejected >= 4:
-                res.cov.setdefault("notes", []).append("validation of the %s group stopped after %d rejected histories; %d histories were not validated"
-                                                       % ("reserved" if reserved else "unreserved", rejected, len(hs) - start))
-                break
-            events = []; owner = []
-            for hi in range(start, len(hs)):
-                owner += [hi] * len(hs[hi][1])
-                events += rebase(hs[hi][1], len(events))
-            name = "MCT_Intern_%d_%d" % (int(reserved), rnd); rnd += 1
-            acc, consumed, r = tracecheck.validate("InternAbsTrace", events, wd, name, constants=consts % "eager", timeout=2400)
-            res.count("trace_events", len(events) if acc else consumed)
-            if acc is None:
-                res.infra_errors.append("trace validation failed to run: " + str(r["error"])[:3000]); return
+def validate_chunk(res, wd, hs, reserved, tag):
+    consts = ("CONSTANT Threads = {0, 1, 2, 3, 4, 5, 6, 7, 8}\nCONSTANT Values = {}\nCONSTANT Indices = {}\n"
+              "CONSTANT NilIndices <- %s\nCONSTANT Mode = \"%%s\"" % ("NilRefs" if reserved else "NoRefs"))
+    start = 0; rnd = 0; rejected = 0
+    while start < len(hs):
+        if rejected >= 3:
             with res._lock:
-                res.add_tlc(r)
-            if acc:
-                res.count("traces_validated_against_impl", len(hs) - start)
-                break
-            hi = owner[min(consumed, len(events) - 1)]
-            res.count("traces_validated_against_impl", hi - start)
-            # the fast path rejected this history: decide with the complete linearization search
-            desc, hev, job = hs[hi]
-            acc2, cons2, r2 = tracecheck.validate("InternAbsTrace", hev, wd, name + "_general", constants=consts % "general", timeout=1200)
-            if acc2 is None:
-                res.infra_errors.append("general trace validation of a rejected history failed to run: " + str(r2["error"])[:3000]); return
+                res.cov.setdefault("notes", []).append("%s: validation stopped after %d rejected histories; %d histories were not validated"
+                                                       % (tag, rejected, len(hs) - start))
+            break
+        events = []; owner = []
+        for hi in range(start, len(hs)):
+            owner += [hi] * len(hs[hi][1])
+            events += rebase(hs[hi][1], len(events))
+        name = "%s_%d" % (tag, rnd); rnd += 1
+        acc, consumed, r = tracecheck.validate("InternAbsTrace", events, wd, name, constants=consts % "eager", timeout=2400)
+        res.count("trace_events", len(events) if acc else consumed)
+        if acc is None:
             with res._lock:
-                res.add_tlc(r2)
-            if acc2:
-                res.count("eager_fallbacks"); res.count("traces_validated_against_impl")
-                with res._lock:
-                    res.cov.setdefault("eager_fallback_examples", [])
-                    if len(res.cov["eager_fallback_examples"]) < 3:
-                        res.cov["eager_fallback_examples"].append({"history": desc, "eager stopped at": _short(events[min(consumed, len(events) - 1)])})
-            else:
-                rejected += 1
-                at = min(cons2, len(hev) - 1)
-                path = _save(wd, "rejected_%d_%d" % (int(reserved), hi), [job] if job else [desc] + [repr(e) for e in hev])
+                res.infra_errors.append("trace validation failed to run: " + str(r["error"])[:3000])
+            return
+        with res._lock:
+            res.add_tlc(r)
+        if acc:
+            res.count("traces_validated_against_impl", len(hs) - start)
+            break
+        hi = owner[min(consumed, len(events) - 1)]
+        res.count("traces_validated_against_impl", hi - start)
+        # the fast path rejected this history: decide with the complete linearization search
+        desc, hev, job = hs[hi]
+        acc2, cons2, r2 = tracecheck.validate("InternAbsTrace", hev, wd, name + "_general", constants=consts % "general", timeout=1200)
+        if acc2 is None:
+            with res._lock:
+                res.infra_errors.append("general trace validation of a rejected history failed to run: " + str(r2["error"])[:3000])
+            return
+        with res._lock:
+            res.add_tlc(r2)
+        if acc2:
+            res.count("eager_fallbacks"); res.count("traces_validated_against_impl")
+            with res._lock:
+                ex = res.cov.setdefault("eager_fallback_examples", [])
+                if len(ex) < 3:
+                    ex.append({"history": desc, "eager stopped at": _short(events[min(consumed, len(events) - 1)])})
+        else:
+            rejected += 1
+            at = min(cons2, len(hev) - 1)
+            path = _save(wd, "rejected_%s_%d" % (tag, hi), [job] if job else [desc] + [repr(e) for e in hev])
+            with res._lock:
                 res.violations.append(("history of the real interning table rejected by spec/InternAbs.tla at event %d %s (%s; preceding events %s)"
                                        % (at + 1, _short(hev[at]), desc, [_short(e) for e in hev[max(0, at - 8):at]]), path))
-            start = hi + 1
+        start = hi + 1
 
 def _short(e):
     if e.get("e") == "iend" and len(e["xs"]) > 12:
@@ -343,8 +363,16 @@ def run(tier, replay_path=None):
     wd = workdir("C31")
     drv = build.harness_cxx(os.path.join(HARNESS, "flydrv.cpp"), os.path.join(BUILD, "harness", "flydrv"))
     if replay_path:
-        p = subprocess.run([drv, "coop"], input=open(replay_path).read(), capture_output=True, text=True)
-        print(p.stdout); print(p.stderr[-2000:]); return 0
+        # a saved job of the cooperative driver (one line), or the command line of a real-thread stress run
+        text = open(replay_path).read()
+        first = text.split("\n")[0].split(" ")
+        if "stress" in first:
+            p = subprocess.run([drv] + first[first.index("stress"):], capture_output=True, text=True)
+            print("\n".join(x for x in p.stdout.split("\n") if x.startswith("J ")))
+        else:
+            p = subprocess.run([drv, "coop"], input=text, capture_output=True, text=True)
+            print(p.stdout)
+        print("driver rc=%d %s" % (p.returncode, p.stderr[-2000:])); return 0
     quick = tier == "quick"
     # developer switch for mutation experiments on a scratch copy of the headers (the model checking of the specs does not
     # depend on the headers): C31_ONLY=replay,random,stress
@@ -383,10 +411,10 @@ def run(tier, replay_path=None):
         replay(res, wd, cfg, drv, 800 if quick else None, histories)
     phase("replay", t1); t1 = time.time()
     if "random" in parts:
-        random_schedules(res, wd, drv, 1000 if quick else 20000, histories)
+        random_schedules(res, wd, drv, 1000 if quick else 8000, histories)
     phase("random_schedules", t1); t1 = time.time()
     if "stress" in parts:
-        stress(res, wd, drv, 30 if quick else 80, 100 if quick else 300, histories, rounds=1 if quick else 6, timeout=600 if quick else 2400)
+        stress(res, wd, drv, 30 if quick else 60, 100 if quick else 200, histories, rounds=1 if quick else 3, timeout=600 if quick else 2400)
     phase("stress", t1); t1 = time.time()
     for t in ths[:4]:
         t.join()
